@@ -41,8 +41,39 @@ SILENT = [
     ("tealer/utils/output.py", "        return \" -> \".join(map(str, [bb.idx for bb in path_bbs]))", "        ids = [str(bb.idx) for bb in path_bbs]\n        return \" -> \".join(ids)", ["C02", "C18"]),
     ("tealer/teal/instructions/instructions.py", "class Dig(Instruction):", "class Dig(Instruction):\n    # reads the n-th value from the top", ["C11", "C16", "C19"]),
     ("tealer/utils/analyses.py", "    if block.is_retsub_block:\n        return function.return_point_blocks(block.subroutine)", "    if block.is_retsub_block:\n        owner = block.subroutine\n        return function.return_point_blocks(owner)", ["C04", "C05", "C01"]),
-    ("tealer/execution_context/transactions.py", "            other_txn = txn.relative_indexes[offset]\n            group.group_relative_indexes[other_txn][txn] = offset",
+    ("tealer/execution_context/transactions.py", "            other_txn = txn.relative_indexes[offset]\n            # other_txn.group_index() = txn.group_index() + offset\n            group.group_relative_indexes[other_txn][txn] = offset",
      "            seen = txn.relative_indexes[offset]\n            group.group_relative_indexes[seen][txn] = offset", ["C13"]),
+    # dict dispatch instead of an if chain
+    ("tealer/analyses/dataflow/transaction_context/fee_field.py", "        if isinstance(comparison_ins, Less):\n            return Greater()\n        if isinstance(comparison_ins, LessE):\n            return GreaterE()\n        if isinstance(comparison_ins, Greater):\n            return Less()\n        if isinstance(comparison_ins, GreaterE):\n            return LessE()\n        return comparison_ins",
+     "        mirrored = {Less: Greater, LessE: GreaterE, Greater: Less, GreaterE: LessE}\n        for cls, other in mirrored.items():\n            if isinstance(comparison_ins, cls):\n                return other()\n        return comparison_ins", ["C09", "C03", "C01"]),
+    # early return instead of nesting
+    ("tealer/detectors/utils.py", "    if absolute_index is not None:\n        if checks_field(function.transaction_context(block).gtxn_context(absolute_index)):\n            return True\n        return False",
+     "    if absolute_index is not None:\n        return bool(checks_field(function.transaction_context(block).gtxn_context(absolute_index)))", ["C01", "C13"]),
+    # all() instead of a loop
+    ("tealer/detectors/utils.py", "    for i in function.transaction_context(block).group_indices:\n        if not checks_field(function.transaction_context(block).gtxn_context(i)):\n            return False\n    return True",
+     "    own = function.transaction_context(block)\n    return all(checks_field(own.gtxn_context(i)) for i in own.group_indices)", ["C01", "C13"]),
+    # helper extracted
+    ("tealer/utils/analyses.py", "    return len(block.next) == 0 and not block.is_retsub_block and not block.is_callsub_block",
+     "    has_successor = len(block.next) != 0\n    transfers_control = block.is_retsub_block or block.is_callsub_block\n    return not has_successor and not transfers_control", ["C01", "C02", "C04", "C13"]),
+    # comprehension instead of a loop in the parser table consumer
+    ("tealer/teal/parse_teal.py", "        if isinstance(ins, (Switch, Match)):\n            for ins_label in ins.labels:\n                ins.add_next(labels[ins_label])\n                labels[ins_label].add_prev(ins)",
+     "        if isinstance(ins, (Switch, Match)):\n            for target in [labels[name] for name in ins.labels]:\n                ins.add_next(target)\n                target.add_prev(ins)", ["C04", "C05", "C14"]),
+    # property body rewritten
+    ("tealer/teal/basic_blocks.py", "        return self.next[0] if self.next else None", "        if len(self.next) == 0:\n            return None\n        return self.next[0]", ["C05", "C02", "C04"]),
+    # sets built differently
+    ("tealer/analyses/dataflow/transaction_context/addr_fields.py", "            return set([ins.addr])", "            return {ins.addr}", ["C08", "C03"]),
+    ("tealer/analyses/dataflow/transaction_context/int_fields.py", "            return set(asserted_values), set(U) - set(asserted_values)\n        return set(U), set(U)\n\n    def _get_asserted_groupindices(",
+     "            true_values = set(asserted_values)\n            return true_values, set(U).difference(true_values)\n        return set(U), set(U)\n\n    def _get_asserted_groupindices(", ["C06", "C03"]),
+    # f-string vs concatenation in a printed form
+    ("tealer/teal/instructions/instructions.py", "        return f\"gtxns {self._field}\"", "        return \"gtxns \" + str(self._field)", ["C16"]),
+    # output: edge emission loop restructured
+    ("tealer/utils/output.py", "            for src_bb in bb.called_subroutine.retsub_blocks:\n                bb_nodes_dot.append(\n                    graph_edge_str(src_bb, return_point_block, config.remaining_edges_color)\n                )",
+     "            bb_nodes_dot.extend(\n                graph_edge_str(src_bb, return_point_block, config.remaining_edges_color)\n                for src_bb in bb.called_subroutine.retsub_blocks\n            )", ["C18", "C17"]),
+    # version check written the other way round
+    ("tealer/teal/parse_teal.py", "        if program_version < ins.version:", "        if ins.version > program_version:", ["C19"]),
+    # worklist as deque-like pops
+    ("tealer/analyses/dataflow/transaction_context/generic.py", "        while worklist:\n            b = worklist[0]\n            worklist = worklist[1:]\n            updated = self._merge_information_forward(analysis_keys, b, global_reachout)",
+     "        while worklist:\n            b, worklist = worklist[0], worklist[1:]\n            updated = self._merge_information_forward(analysis_keys, b, global_reachout)", ["C03", "C01", "C06"]),
     ("tealer/analyses/dataflow/transaction_context/txn_types.py", "        U = set(self.UNIVERSAL_SETS[self.TRANSACTION_TYPE_KEY])", "        U = set(self._universal_set(self.TRANSACTION_TYPE_KEY))", ["C07", "C14"]),
     ("tealer/teal/instructions/parse_instruction.py", "    if x.startswith(\"0x\"):\n        return int(x[2:], 16)\n    if x.startswith(\"0\"):", "    if x[:2] == \"0x\":\n        return int(x[2:], 16)\n    if x[:1] == \"0\":", ["C15", "C16"]),
     ("tealer/printers/call_graph.py", "            graph[subroutine.name] = set(\n                map(lambda bi: bi.subroutine.name, subroutine.caller_blocks)\n            )", "            graph[subroutine.name] = {bi.subroutine.name for bi in subroutine.caller_blocks}", ["C05", "C18", "C17"]),
